@@ -11,7 +11,12 @@
      sch_exec_wf s         : type names are unique in the schema's type map (it is an IndexMap), and no object or
                              interface type declares a field with the name of a meta-field
                              (__typename / __schema / __type; names starting with "__" are reserved), and the
-                             built-in scalar String (the type of __typename) is in the type map *)
+                             built-in scalar String (the type of __typename) is in the type map, and
+                             (sch_impl_covariant, the part of the schema rule IsValidImplementation that execution
+                             relies on) where an object type declares a field of an interface it implements, every
+                             object type that is possible for the named type of the object's field is possible for
+                             the named type of the interface's field (`j: J` may be narrowed to `j: K` only if K is J,
+                             implements J, or is a member of J) *)
 From Coq Require Import ZArith.
 From ApolloVerif Require Import Base.Chars Ast.Ast Schema.Model Run.Json Run.Coerce Run.TypedDoc Run.Prog Run.Execute
   Run.ExecTop.
@@ -87,6 +92,32 @@ Definition rd_mergeable (s : schema) (d : rdoc) : Prop := ex_mergeable s (rd_fra
 (* ---------------------------------------------------------------- the schema *)
 Definition td_is_meta_name (n : str) : bool := streq n td_typename || streq n td_schema || streq n td_type.
 
+(* every object type of the schema that satisfies the type condition K satisfies the type condition J *)
+Definition sch_possible_incl (s : schema) (K J : str) : bool :=
+  forallb (fun t =>
+    match t with
+    | EObject _ otn impls _ _ _ =>
+        negb (ex_type_applies s otn (map c_val impls) K) || ex_type_applies s otn (map c_val impls) J
+    | _ => true
+    end) (sch_types s).
+
+Definition sch_impl_covariant (s : schema) : bool :=
+  forallb (fun t =>
+    match t with
+    | EObject _ _ impls _ ofields _ =>
+        forallb (fun i =>
+          match sch_get_type s (c_val i) with
+          | Some (EInterface _ _ _ _ ifields _) =>
+              forallb (fun f =>
+                match td_find_fd (fd_name (c_val f)) ofields with
+                | Some od => sch_possible_incl s (inner_named_type (fd_ty od)) (inner_named_type (fd_ty (c_val f)))
+                | None => true
+                end) ifields
+          | _ => true
+          end) impls
+    | _ => true
+    end) (sch_types s).
+
 Definition sch_exec_wf (s : schema) : bool :=
   j_str_nodup (map et_name (sch_types s)) &&
   forallb (fun t =>
@@ -95,7 +126,8 @@ Definition sch_exec_wf (s : schema) : bool :=
         forallb (fun f => negb (td_is_meta_name (fd_name (c_val f)))) fs
     | _ => true
     end) (sch_types s) &&
-  match sch_get_type s td_String with Some (EScalar _ _ _ _) => true | _ => false end.
+  match sch_get_type s td_String with Some (EScalar _ _ _ _) => true | _ => false end &&
+  sch_impl_covariant s.
 
 (* ---------------------------------------------------------------- measures *)
 (* nesting of inline fragments in a selection list, not looking into fields: what collect_fields recurses on *)
